@@ -79,6 +79,7 @@ typedef struct {
   // expected content per parent-visible pipe
   struct { unsigned s; uint64_t start, len; } seg[3][512];
   int nseg[3];
+  int text, lazy_accept;
   char dir[700];
   FILE *files[3];
   int handles[3];
@@ -179,7 +180,9 @@ static long long verify(child_t *c, int p, uint64_t off, const uint8_t *buf, siz
     }
     while (i < n && off + i < base + sl) {
       uint64_t pos = c->seg[p][s].start + (off + i - base);
-      if (buf[i] != poscode(c->seg[p][s].s, pos)) return (long long) (off + i);
+      uint8_t want = poscode(c->seg[p][s].s, pos);
+      if (c->text && !want) want = 1;
+      if (buf[i] != want) return (long long) (off + i);
       i++;
     }
     base += sl;
@@ -227,7 +230,7 @@ static int run_head(child_t *c)
       }
       e->acc += done;
       if (e->acc >= e->b) return 1;
-      if (err == EAGAIN) return 0;  // blocked: retried at the next scheduler run
+      if (err == EAGAIN) return done > 0 ? 2 : 0;  // blocked: retried at the next scheduler run
       fprintf(L, "{\"ev\":\"cwerr\",\"h\":%d,\"vt\":%lld,\"fd\":%d,\"err\":%ld}\n", h,
               (long long) w_vnow, fd, err);
       return 1;
@@ -247,7 +250,7 @@ static int run_head(child_t *c)
                 "{\"ev\":\"cr\",\"h\":%d,\"vt\":%lld,\"n\":%ld,\"eof\":%ld,\"err\":%ld,"
                 "\"bad\":%ld}\n",
                 h, (long long) w_vnow, done, eof, err == EAGAIN ? 0 : err, bad);
-      if (e->cmd == 'E') return eof || (err && err != EAGAIN);
+      if (e->cmd == 'E') return (eof || (err && err != EAGAIN)) ? 1 : (done > 0 ? 2 : 0);
       return done > 0 || eof || (err && err != EAGAIN);
     }
     case 'C': {
@@ -305,11 +308,19 @@ static int64_t sched_next(void)
   return best;
 }
 
+static int accept_child(child_t *c);
 static int in_sched;
-static void sched_run(int64_t upto)
+static int sched_run(int64_t upto)
 {
-  if (in_sched) return;
+  int progress = 0;
+  if (in_sched) return 0;
   in_sched = 1;
+  for (int h = 0; h < NH; h++)
+    if (C[h].used && C[h].lazy_accept && C[h].csock < 0 && C[h].lsock >= 0 && !w_in_start &&
+        W->nchild > C[h].lazy_accept - 1) {
+      C[h].lazy_accept = 0;
+      accept_child(&C[h]);
+    }
   for (;;) {
     // earliest runnable item (program-order head or async signal) with t <= upto
     int bh = -1, ba = -1;
@@ -334,10 +345,13 @@ static void sched_run(int64_t upto)
     if (ba >= 0) {
       AE[ba].done = 1;
       deliver_signal(&C[AE[ba].h], AE[ba].sig);
+      progress++;
       continue;
     }
     child_t *c = &C[bh];
-    if (run_head(c))
+    int rh = run_head(c);
+    if (rh) progress++;
+    if (rh == 1)
       c->head++;
     else
       c->ev[c->head].done = 2;
@@ -346,15 +360,18 @@ static void sched_run(int64_t upto)
     if (C[h].used && C[h].head < C[h].nev && C[h].ev[C[h].head].done == 2)
       C[h].ev[C[h].head].done = 0;
   in_sched = 0;
+  return progress;
 }
 
 static void finish_case(void);
 
 static int g_in_sinkcalls;
+static char *g_sinkbuf;
 static void on_hang(const char *what)
 {
   g_hang = 1;
-  if (g_in_sinkcalls) fprintf(L, "]}\n");
+  if (g_in_sinkcalls)
+    fprintf(L, "{\"i\":%d,\"sinkcalls\":[%s]}\n", g_opidx, g_sinkbuf ? g_sinkbuf : "");
   fprintf(L, "{\"i\":%d,\"op\":\"%s\",\"h\":%d,\"t0\":%lld,\"hang\":\"%s\",\"vt\":%lld,\"to\":%ld,",
           g_opidx, g_opname, g_oph, (long long) g_opt0, what, (long long) w_vnow, g_oparg);
   jtrace();
@@ -396,7 +413,8 @@ static int on_kill(int pid, int sig)
 // ------------------------------------------------------------------ logging
 static const uint32_t TRMASK_DEFAULT =
     (1u << F_fork) | (1u << F_kill) | (1u << F_waitpid) | (1u << F_execvp) |
-    (1u << F__exit) | (1u << F_poll) | (1u << F_read) | (1u << F_write) | (1u << F_pipe);
+    (1u << F__exit) | (1u << F_poll) | (1u << F_read) | (1u << F_write) | (1u << F_pipe) |
+    (1u << F_realloc);
 
 static void jtrace(void)
 {
@@ -537,6 +555,17 @@ typedef struct {
 } csink;
 
 static int g_sinkcalls;
+static size_t g_sinklen, g_sinkcap;
+static void sink_append(const char *txt)
+{
+  size_t n = strlen(txt);
+  if (g_sinklen + n + 1 > g_sinkcap) {
+    g_sinkcap = (g_sinklen + n + 1) * 2 + 1024;
+    g_sinkbuf = realloc(g_sinkbuf, g_sinkcap);
+  }
+  memcpy(g_sinkbuf + g_sinklen, txt, n + 1);
+  g_sinklen += n;
+}
 static int custom_sink(REPROC_STREAM stream, const uint8_t *buf, size_t size, void *ctx)
 {
   csink *s = ctx;
@@ -545,14 +574,100 @@ static int custom_sink(REPROC_STREAM stream, const uint8_t *buf, size_t size, vo
     bad = verify(s->c, (int) stream, s->c->rdoff[stream], buf, size);
     s->c->rdoff[stream] += size;
   }
-  fprintf(L, "%s[%d,%d,%zu,%lld,%lld]", g_sinkcalls++ ? "," : "", s->idx, (int) stream, size,
-          bad, (long long) w_vnow);
+  char line[128];
+  snprintf(line, sizeof line, "%s[%d,%d,%zu,%lld,%lld]", g_sinkcalls++ ? "," : "", s->idx,
+           (int) stream, size, bad, (long long) w_vnow);
+  sink_append(line);
   int k = s->ncalls++;
   if (k == s->fail_at) return s->fail_ret;
   return 0;
 }
 
 // ------------------------------------------------------------------ ops
+
+typedef struct {
+  csink cs[2];
+  char *str[2];
+  long pre[2];
+  reproc_sink sk[2];
+  char spec[2][32];
+} sinkset;
+
+static void sinks_setup(sinkset *ss, child_t *c, const char *so, const char *se)
+{
+  memset(ss, 0, sizeof *ss);
+  for (int i = 0; i < 2; i++) {
+    const char *sp = i == 0 ? so : se;
+    if (!sp || !*sp) sp = "d";
+    snprintf(ss->spec[i], sizeof ss->spec[i], "%s", sp);
+    ss->cs[i].idx = i;
+    ss->cs[i].c = c;
+    ss->cs[i].fail_at = -1;
+    if (sp[0] == 's') {
+      ss->pre[i] = atol(sp + 1);
+      if (ss->pre[i] > 0) {
+        ss->str[i] = malloc((size_t) ss->pre[i] + 1);  // plain malloc: the library reallocs it
+        memset(ss->str[i], 'p', (size_t) ss->pre[i]);
+        ss->str[i][ss->pre[i]] = 0;
+      }
+      ss->sk[i] = reproc_sink_string(&ss->str[i]);
+    } else if (sp[0] == 'c') {
+      if (sp[1]) sscanf(sp + 1, "%d:%d", &ss->cs[i].fail_at, &ss->cs[i].fail_ret);
+      ss->sk[i].function = custom_sink;
+      ss->sk[i].context = &ss->cs[i];
+    } else if (sp[0] == 'n') {
+      ss->sk[i] = REPROC_SINK_NULL;
+    } else {
+      ss->sk[i] = reproc_sink_discard();
+    }
+  }
+}
+
+static void sinks_result(sinkset *ss, child_t *c, char *sres, size_t cap)
+{
+  sres[0] = 0;
+  for (int i = 0; i < 2; i++) {
+    if (ss->spec[i][0] != 's') continue;
+    // string sink: prefix 'p'*pre then exactly the bytes received (stream i+1 when sinks differ)
+    long long bad = -1;
+    long len = ss->str[i] ? (long) strlen(ss->str[i]) : -1;
+    if (ss->str[i]) {
+      for (long j = 0; j < ss->pre[i] && j < len; j++)
+        if (ss->str[i][j] != 'p') bad = j;
+      if (len >= ss->pre[i] && bad < 0) {
+        long long v = verify(c, i + 1, c->rdoff[i + 1], (uint8_t *) ss->str[i] + ss->pre[i],
+                             (size_t) (len - ss->pre[i]));
+        if (v != -1) bad = v == -2 ? -2 : v + ss->pre[i];
+      }
+    }
+    char b[96];
+    snprintf(b, sizeof b, "%s[%d,%ld,%ld,%lld]", sres[0] ? "," : "", i, ss->pre[i], len, bad);
+    if (strlen(sres) + strlen(b) + 1 < cap) strcat(sres, b);
+    if (len > ss->pre[i]) c->rdoff[i + 1] += (uint64_t) (len - ss->pre[i]);
+    ss->str[i] = reproc_free(ss->str[i]);
+  }
+}
+
+static void do_runex(int h, child_t *c, const char **argv, reproc_options o, const char *spec)
+{
+  char so[32] = "d", se[32] = "d";
+  sscanf(spec, "%31[^,],%31s", so, se);
+  sinkset ss;
+  sinks_setup(&ss, c, so, se);
+  c->started = 1;
+  c->lazy_accept = 1 + W->nchild;  // accept once the library has forked another child
+  op_begin("RN", h);
+  g_sinkcalls = 0;
+  g_sinklen = 0;
+  if (g_sinkbuf) g_sinkbuf[0] = 0;
+  g_in_sinkcalls = 1;
+  int r = reproc_run_ex(argv, o, ss.sk[0], ss.sk[1]);
+  g_in_sinkcalls = 0;
+  fprintf(L, "{\"i\":%d,\"sinkcalls\":[%s]}\n", g_opidx, g_sinkbuf ? g_sinkbuf : "");
+  char sres[200];
+  sinks_result(&ss, c, sres, sizeof sres);
+  op_end_fmt(r, "\"strs\":[%s],\"pid\":%d", sres, c->pid);
+}
 static void setup_child_dir(child_t *c, int h, const char *flags)
 {
   snprintf(c->dir, sizeof c->dir, "%s/h%d", g_cdir, h);
@@ -591,8 +706,26 @@ static void setup_child_dir(child_t *c, int h, const char *flags)
 
 static int accept_child(child_t *c)
 {
-  struct pollfd p = { c->lsock, POLLIN, 0 };
-  int r = poll(&p, 1, 8000);
+  // wait (real time) for the helper to connect; give up early when the newest child the
+  // library forked is already gone (exec failed)
+  int r = 0;
+  for (int i = 0; i < 400 && r <= 0; i++) {
+    struct pollfd p = { c->lsock, POLLIN, 0 };
+    r = poll(&p, 1, 20);
+    if (r > 0) break;
+    if (W->nchild > 0) {
+      int pid = W->child[W->nchild - 1].pid;
+      if (W->child[W->nchild - 1].state == 2) return -1;
+      siginfo_t si;
+      si.si_pid = 0;
+      if (waitid(P_PID, (id_t) pid, &si, WEXITED | WNOHANG | WNOWAIT) < 0 || si.si_pid != 0) {
+        // one more look: it may have connected just before dying
+        struct pollfd q = { c->lsock, POLLIN, 0 };
+        if (poll(&q, 1, 0) <= 0) return -1;
+        r = 1;
+      }
+    }
+  }
   if (r <= 0) return -1;
   int s = accept4(c->lsock, NULL, NULL, SOCK_CLOEXEC);
   if (s < 0) return -1;
@@ -617,6 +750,7 @@ static void do_start(int h)
   const char *prog = "vc";
   char flags[128] = "";
   int argvnull = 0, usewd = 0;
+  const char *runex = NULL;
   long inputsz = -1;
   static const char *extra[40];
   static char extrabuf[40][32];
@@ -658,6 +792,8 @@ static void do_start(int h)
     else if ((v = kv(t, "skill"))) snprintf(c->skill, sizeof c->skill, "%s", v);
     else if ((v = kv(t, "ignpipe"))) strcat(flags, " ignpipe");
     else if ((v = kv(t, "argvnull"))) argvnull = atoi(v);
+    else if ((v = kv(t, "text"))) { c->text = atoi(v); if (c->text) strcat(flags, " text"); }
+    else if ((v = kv(t, "runex"))) runex = v;
   }
   if (tp > 0 && tp <= ntok && strcmp(tok[tp - 1], ";") == 0) tp--;
   if (strcmp(c->term, "ign") == 0) strcat(flags, " ign15");
@@ -723,6 +859,12 @@ static void do_start(int h)
   else snprintf(progpath, sizeof progpath, "%s", prog);
   const char *argv[] = { progpath, "a1", NULL };
 
+  if (runex) {
+    // RN: reproc_run_ex(argv, options, sinks): runex=<outsink>,<errsink> (d | s<pre> | c | c<k>:<ret>)
+    do_runex(h, c, argv, o, runex);
+    free(input);
+    return;
+  }
   op_begin("S", h);
   w_in_start = 1;
   int r = reproc_start(c->p, (o.fork || argvnull) ? NULL : argv, o);
@@ -751,6 +893,7 @@ static void op_read(int h, int stream, long size, int probe)
 {
   child_t *c = &C[h];
   uint8_t *buf = malloc((size_t) size);
+  g_oparg = stream;
   op_begin("RD", h);
   int r = reproc_read(c->p, (REPROC_STREAM) stream, buf, (size_t) size);
   long long bad = -1;
@@ -920,69 +1063,110 @@ static void run_script(void)
           }
         }
       }
-    } else if (!strcmp(t, "DR") || !strcmp(t, "RN")) {
-      // DR h <outsink> <errsink>     sink: d | s<prefixlen> | c | c<k>:<ret>
+    } else if (!strcmp(t, "DR")) {
+      // DR h <outsink> <errsink>     sink: d | n | s<prefixlen> | c | c<k>:<ret>
       int h = (int) nextlong(0);
       child_t *c = &C[h];
       const char *so = nexttok(), *se = nexttok();
-      csink cs[2];
-      char *str[2] = { NULL, NULL };
-      long pre[2] = { 0, 0 };
-      reproc_sink sk[2];
-      for (int i = 0; i < 2; i++) {
-        const char *sp = i == 0 ? so : se;
-        if (!sp) sp = "d";
-        memset(&cs[i], 0, sizeof cs[i]);
-        cs[i].idx = i;
-        cs[i].c = c;
-        cs[i].fail_at = -1;
-        if (sp[0] == 's') {
-          pre[i] = atol(sp + 1);
-          if (pre[i] > 0) {
-            str[i] = malloc((size_t) pre[i] + 1);  // plain malloc: the library reallocs it
-            memset(str[i], 'p', (size_t) pre[i]);
-            str[i][pre[i]] = 0;
-          }
-          sk[i] = reproc_sink_string(&str[i]);
-        } else if (sp[0] == 'c') {
-          if (sp[1]) sscanf(sp + 1, "%d:%d", &cs[i].fail_at, &cs[i].fail_ret);
-          sk[i].function = custom_sink;
-          sk[i].context = &cs[i];
-        } else if (sp[0] == 'n') {
-          sk[i] = REPROC_SINK_NULL;
-        } else {
-          sk[i] = reproc_sink_discard();
-        }
-      }
+      sinkset ss;
+      sinks_setup(&ss, c, so, se);
       op_begin("DR", h);
-      fprintf(L, "{\"i\":%d,\"sinkcalls\":[", g_opidx);
       g_sinkcalls = 0;
+      g_sinklen = 0;
+      if (g_sinkbuf) g_sinkbuf[0] = 0;
       g_in_sinkcalls = 1;
-      int r = reproc_drain(c->p, sk[0], sk[1]);
+      int r = reproc_drain(c->p, ss.sk[0], ss.sk[1]);
       g_in_sinkcalls = 0;
-      fprintf(L, "]}\n");
-      char sres[200] = "";
-      for (int i = 0; i < 2; i++) {
-        const char *sp = i == 0 ? so : se;
-        if (!sp || sp[0] != 's') continue;
-        // string sink: prefix 'p'*pre then exactly the bytes of stream i+1
-        long long bad = -1;
-        long len = str[i] ? (long) strlen(str[i]) : -1;
-        if (str[i]) {
-          for (long j = 0; j < pre[i] && j < len; j++)
-            if (str[i][j] != 'p') bad = j;
-          if (len >= pre[i] && bad < 0) {
-            long long v = verify(c, i + 1, c->rdoff[i + 1], (uint8_t *) str[i] + pre[i],
-                                 (size_t) (len - pre[i]));
-            if (v != -1) bad = v;
-          }
-        }
-        char b[96];
-        snprintf(b, sizeof b, "%s[%d,%ld,%ld,%lld]", sres[0] ? "," : "", i, pre[i], len, bad);
-        strcat(sres, b);
-        str[i] = reproc_free(str[i]);
-      }
+      fprintf(L, "{\"i\":%d,\"sinkcalls\":[%s]}\n", g_opidx, g_sinkbuf ? g_sinkbuf : "");
+      char sres[200];
+      sinks_result(&ss, c, sres, sizeof sres);
       op_end_fmt(r, "\"strs\":[%s]", sres);
+    } else if (!strcmp(t, "RA")) {
+      // RA h stream bufsize: read until EPIPE / error / hang; nonblocking EAGAIN -> poll for it
+      int h = (int) nextlong(0);
+      int stream = (int) nextlong(1);
+      long size = nextlong(4096);
+      child_t *c = &C[h];
+      uint8_t *buf = malloc((size_t) size);
+      long long total = 0, bad = -1;
+      long nreads = 0, eagains = 0, maxret = 0;
+      int r;
+      g_oparg = stream;
+      op_begin("RA", h);
+      for (;;) {
+        sched_run(w_vnow);
+        r = reproc_read(c->p, (REPROC_STREAM) stream, buf, (size_t) size);
+        nreads++;
+        if (r > 0) {
+          if (r > size && bad == -1) bad = -3;
+          long long v = verify(c, stream, c->rdoff[stream], buf, (size_t) r);
+          if (v != -1 && bad == -1) bad = v;
+          c->rdoff[stream] += (uint64_t) r;
+          total += r;
+          if (r > maxret) maxret = r;
+          continue;
+        }
+        if (r == REPROC_EWOULDBLOCK && eagains < 100000) {
+          eagains++;
+          reproc_event_source src = { c->p, stream == 1 ? REPROC_EVENT_OUT : REPROC_EVENT_ERR, 0 };
+          int q = reproc_poll(&src, 1, REPROC_INFINITE);
+          if (q < 0) {
+            r = q;
+            break;
+          }
+          if (src.events & REPROC_EVENT_DEADLINE) {
+            r = REPROC_ETIMEDOUT;
+            break;
+          }
+          continue;
+        }
+        break;
+      }
+      op_end_fmt(r, "\"st\":%d,\"size\":%ld,\"total\":%lld,\"bad\":%lld,\"nreads\":%ld,\"eagains\":%ld,\"maxret\":%ld",
+                 stream, size, total, bad, nreads, eagains, maxret);
+      free(buf);
+    } else if (!strcmp(t, "WA")) {
+      // WA h total chunk: write position-coded data until total bytes were accepted
+      int h = (int) nextlong(0);
+      long total = nextlong(0), chunk = nextlong(4096);
+      child_t *c = &C[h];
+      uint8_t *buf = malloc((size_t) chunk);
+      long long done = 0;
+      long nwrites = 0, eagains = 0, partial = 0;
+      int r = 0;
+      op_begin("WA", h);
+      while (done < total) {
+        long n = total - done < chunk ? total - done : chunk;
+        for (long i = 0; i < n; i++) buf[i] = poscode(0, c->wroff + (uint64_t) i);
+        sched_run(w_vnow);
+        r = reproc_write(c->p, buf, (size_t) n);
+        nwrites++;
+        if (r > 0) {
+          if (r < n) partial++;
+          c->wroff += (uint64_t) r;
+          done += r;
+          continue;
+        }
+        if (r == 0 && n > 0) break;
+        if (r == REPROC_EWOULDBLOCK && eagains < 100000) {
+          eagains++;
+          reproc_event_source src = { c->p, REPROC_EVENT_IN, 0 };
+          int q = reproc_poll(&src, 1, REPROC_INFINITE);
+          if (q < 0) {
+            r = q;
+            break;
+          }
+          if (src.events & REPROC_EVENT_DEADLINE) {
+            r = REPROC_ETIMEDOUT;
+            break;
+          }
+          continue;
+        }
+        break;
+      }
+      op_end_fmt(r, "\"total\":%ld,\"done\":%lld,\"nwrites\":%ld,\"eagains\":%ld,\"partial\":%ld,\"woff\":%llu",
+                 total, done, nwrites, eagains, partial, (unsigned long long) c->wroff);
+      free(buf);
     } else if (!strcmp(t, "D")) {
       int h = (int) nextlong(0);
       op_begin("D", h);
